@@ -2,15 +2,17 @@
 # usage: tools/seeded_confirm.sh <seeded dir name>   -- confirms a seeded change in a scratch worktree (never in /repo)
 set -u
 name="$1"
-dir=/verif/seeded/$name
+VERIF=$(cd "$(dirname "$0")/.." && pwd)
+REPO=${RIMU_REPO:-/repo}
+dir=$VERIF/seeded/$name
 wt=/tmp/seeded-confirm-$$
-git -C /repo worktree add -q --detach "$wt" HEAD 2>/dev/null
+git -C $REPO worktree add -q --detach "$wt" HEAD 2>/dev/null
 cd "$wt"
 export PYTHONDONTWRITEBYTECODE=1
 RIMU_SRC=$wt/src PYTHONPATH=$wt/src /venv/bin/python "$dir/demo.py" "$wt/src" >/dev/null 2>&1; clean=$?
-git apply "$dir/patch.diff" || { echo "$name: patch does not apply"; cd /; git -C /repo worktree remove --force "$wt"; exit 2; }
+git apply "$dir/patch.diff" || { echo "$name: patch does not apply"; cd /; git -C $REPO worktree remove --force "$wt"; exit 2; }
 tests=$(PYTHONPATH=$wt/src /venv/bin/python -m pytest -q -p no:cacheprovider 2>&1 | tail -1)
 RIMU_SRC=$wt/src PYTHONPATH=$wt/src /venv/bin/python "$dir/demo.py" "$wt/src" >/dev/null 2>&1; mutated=$?
 cd /
-git -C /repo worktree remove --force "$wt"
+git -C $REPO worktree remove --force "$wt"
 echo "$name: demo clean=$clean mutated=$mutated tests: $tests"
